@@ -344,7 +344,8 @@ Section WithFile.
                  incl (combine (c_diemap c) (c_dielist c)) (combine (c_diemap c') (c_dielist c')).
   Definition dies_mono (D D' : list die_obj) : Prop :=
     forall id d, nth_error D id = Some d ->
-      exists d', nth_error D' id = Some d' /\ d_cu d' = d_cu d /\ d_off d' = d_off d /\ d_raw d' = d_raw d.
+      exists d', nth_error D' id = Some d' /\ d_cu d' = d_cu d /\ d_off d' = d_off d /\ d_raw d' = d_raw d /\
+                 (d_parent d <> None -> d_parent d' <> None) /\ (d_term d <> None -> d_term d' <> None).
 
   Definition ext (s s' : state) : Prop :=
     cus_mono (cus s) (cus s') /\ dies_mono (dies s) (dies s') /\ frames s' = frames s.
@@ -362,8 +363,8 @@ Section WithFile.
   Qed.
   Lemma dies_mono_trans D1 D2 D3 : dies_mono D1 D2 -> dies_mono D2 D3 -> dies_mono D1 D3.
   Proof.
-    intros B1 B2 id d H. destruct (B1 _ _ H) as (d' & H' & E1 & E2 & E3).
-    destruct (B2 _ _ H') as (d'' & H'' & E1' & E2' & E3'). exists d''. repeat split; congruence.
+    intros B1 B2 id d H. destruct (B1 _ _ H) as (d' & H' & E1 & E2 & E3 & L1 & L2).
+    destruct (B2 _ _ H') as (d'' & H'' & E1' & E2' & E3' & L1' & L2'). exists d''. repeat split; try congruence; auto.
   Qed.
 
   Lemma ext_refl s : ext s s.
@@ -395,7 +396,7 @@ Section WithFile.
   Lemma die_at_ext s s' id u o : ext s s' -> die_at s id u o -> die_at s' id u o.
   Proof.
     intros (A & B & _) (d & c & Hd & Hc & Eu & Eo).
-    destruct (B _ _ Hd) as (d' & Hd' & E1 & E2 & E3).
+    destruct (B _ _ Hd) as (d' & Hd' & E1 & E2 & E3 & _).
     destruct (A _ _ Hc) as (c' & Hc' & E1' & _).
     exists d', c'. rewrite E1. repeat split; congruence.
   Qed.
